@@ -493,6 +493,10 @@ VarWrite(s, v, op, x) ==
                                 THEN Append(@, [v |-> v, r |-> old]) ELSE @]
 
 (* Observer lifecycle (internal_observer.rs:74-141, 206-231; public.rs:95-121) *)
+\* ghost: which of the "nothing to do" branches of the lifecycle calls a behaviour has exercised.  They
+\* leave the state (almost) unchanged, so without this the model checker would only ever keep ONE of
+\* several histories that differ in exactly those calls (MC.tla keeps `cov` in its VIEW).
+Cov(s, tag) == [s EXCEPT !.cov = @ \cup {tag}]
 \* ghost: nodes one of whose observers had a lifecycle call since the last stabilise finished (C10:
 \* such calls must not affect the OTHER observers / subscriptions of that node)
 Touch(s, o) == [s EXCEPT !.obsTouched = @ \cup {s.onode[o]}]
@@ -503,13 +507,13 @@ DisallowObs(s0, o) ==
     [] s.ostate[o] = "inuse" ->
          [s EXCEPT !.stats.activeObs = @ - 1, !.ostate[o] = "disallowed",
                    !.disObs = Append(@, o)]
-    [] OTHER -> s
+    [] OTHER -> Cov(s, "disallow:dead")
 \* try_subscribe; result appended to retLog as [o, r]
 Subscribe(s0, o, eff) ==
   LET s == Touch(s0, o) IN
   IF ~Ok(s) THEN s ELSE
   IF s.ostate[o] \in {"disallowed", "unlinked"}
-  THEN [s EXCEPT !.retLog = Append(@, [o |-> o, r |-> <<"err", "Disallowed">>])] ELSE
+  THEN Cov([s EXCEPT !.retLog = Append(@, [o |-> o, r |-> <<"err", "Disallowed">>])], "subscribe:dead") ELSE
   IF s.busyObs = o THEN Fail(s, "panic:borrow_handlers") ELSE
   LET tok == s.onext[o]
       h == [tok |-> tok, prev |-> "never", at |-> s.num, eff |-> eff]
@@ -522,13 +526,15 @@ Subscribe(s0, o, eff) ==
 Unsubscribe(s0, o, to, tok) ==
   LET s == Touch(Touch(s0, o), to) IN
   IF ~Ok(s) THEN s ELSE
-  IF to # o THEN [s EXCEPT !.retLog = Append(@, [o |-> o, r |-> <<"err", "Mismatch">>])] ELSE
+  IF to # o THEN Cov([s EXCEPT !.retLog = Append(@, [o |-> o, r |-> <<"err", "Mismatch">>])], "unsub:mismatch") ELSE
   IF s.ostate[o] \in {"disallowed", "unlinked"}
-  THEN [s EXCEPT !.retLog = Append(@, [o |-> o, r |-> <<"ok", 0>>])] ELSE
+  THEN Cov([s EXCEPT !.retLog = Append(@, [o |-> o, r |-> <<"ok", 0>>])], "unsub:dead") ELSE
   IF s.busyObs = o THEN Fail(s, "panic:borrow_handlers") ELSE
   LET existed == \E i \in 1..Len(s.osubs[o]) : s.osubs[o][i].tok = tok
-      s1 == [s EXCEPT !.osubs[o] = SelectSeq(@, LAMBDA h : h.tok # tok),
-                      !.retLog = Append(@, [o |-> o, r |-> <<"ok", 0>>])]
+      s1 == Cov([s EXCEPT !.osubs[o] = SelectSeq(@, LAMBDA h : h.tok # tok),
+                          !.retLog = Append(@, [o |-> o, r |-> <<"ok", 0>>])],
+                IF s.ostate[o] = "created" THEN "unsub:created"
+                ELSE IF existed THEN "unsub:inuse" ELSE "unsub:inuse:gone")
       n == s.onode[o]
   IN IF s1.ostate[o] # "inuse" THEN s1
      ELSE IF "unsub_decr" \in Fix
@@ -1161,7 +1167,7 @@ InitState(maxH) ==
    scope |-> <<>>, cutoff |-> <<>>, force |-> <<>>, nobs |-> <<>>, numH |-> <<>>,
    inHas |-> <<>>, mrDid |-> <<>>, rhs |-> <<>>, created |-> <<>>, gen |-> <<>>, born |-> <<>>,
    edges |-> <<>>, fstale |-> <<>>, ninv |-> <<>>, fireAll |-> <<>>,
-   xprev |-> <<>>, xstore |-> <<>>, xdeps |-> <<>>, xcell |-> <<>>, ne |-> 0, xdead |-> {}, poisoned |-> FALSE, handles |-> {}, vhandles |-> {}, obsTouched |-> {}, memos |-> <<>>, memoLog |-> <<>>,
+   xprev |-> <<>>, xstore |-> <<>>, xdeps |-> <<>>, xcell |-> <<>>, ne |-> 0, xdead |-> {}, poisoned |-> FALSE, handles |-> {}, vhandles |-> {}, obsTouched |-> {}, cov |-> {}, refused |-> 0, memos |-> <<>>, memoLog |-> <<>>,
    setAt |-> <<>>, cell |-> <<>>, pend |-> <<>>,
    \* observers
    no |-> 0, onode |-> <<>>, ostate |-> <<>>, osubs |-> <<>>, onext |-> <<>>, oclones |-> <<>>,
